@@ -504,19 +504,34 @@ func c20judge(c *Ctx, id string, files []bfile, origin string, r *bres) {
 	if strings.HasPrefix(fail, "trimming the trimmed files again") {
 		// recorded class: the package declares the same field with the same value text more than once
 		// (e.g. in two files); the first trim resolves only part of the redundancy, a second trim more
-		norm := func(l string) string { return strings.Join(strings.Fields(l), " ") }
+		// ... counted by path: svc: a: {port: 1} in one file and svc: a: port: 1 in another declare one field twice
 		count := map[string]int{}
 		dup := false
-		for _, f := range files {
-			for _, l := range strings.Split(f.Src, "\n") {
-				n := norm(l)
-				if n == "" || n == "package p" || n == "}" || n == "{" || !strings.Contains(n, ":") {
+		var walk func(prefix string, decls []ast.Decl)
+		walk = func(prefix string, decls []ast.Decl) {
+			for _, d := range decls {
+				f, ok := d.(*ast.Field)
+				if !ok {
 					continue
 				}
-				count[n]++
-				if count[n] > 1 {
+				name, _, err := ast.LabelName(f.Label)
+				if err != nil {
+					continue
+				}
+				path := prefix + "." + name
+				if st, ok := f.Value.(*ast.StructLit); ok {
+					walk(path, st.Elts)
+					continue
+				}
+				count[path]++
+				if count[path] > 1 {
 					dup = true
 				}
+			}
+		}
+		for _, f := range files {
+			if pf, err := parser.ParseFile(f.Name, f.Src); err == nil {
+				walk("", pf.Decls)
 			}
 		}
 		if dup {
